@@ -268,6 +268,35 @@ func checkSamplerInventory(r *Run) {
 		}
 		now[k][s.Callee+" <- "+og]++
 	}
+	// samplers of unexported helpers count for their callers (extracting a helper does not change the inventory)
+	direct := now
+	now = map[string]map[string]int{}
+	var expand func(fd *FuncDecl, into map[string]int, seen map[*FuncDecl]bool, depth int)
+	expand = func(fd *FuncDecl, into map[string]int, seen map[*FuncDecl]bool, depth int) {
+		if seen[fd] || depth > 4 {
+			return
+		}
+		seen[fd] = true
+		for s, c := range direct[FuncKey(fd.Obj)] {
+			into[s] += c
+		}
+		info := fd.Pkg.TypesInfo
+		ast.Inspect(fd.Decl.Body, func(n ast.Node) bool {
+			if c, ok := n.(*ast.CallExpr); ok {
+				if h := r.unexportedHelper(info, c); h != nil {
+					expand(h, into, seen, depth+1)
+				}
+			}
+			return true
+		})
+	}
+	for _, fd := range p.FuncsIn(c07Scope) {
+		m := map[string]int{}
+		expand(fd, m, map[*FuncDecl]bool{}, 0)
+		if len(m) > 0 {
+			now[FuncKey(fd.Obj)] = m
+		}
+	}
 	if r.Tier == "emit" {
 		writeJSON(refPath("C07_samplers.json"), map[string]any{"comment": "frozen sampler inventory: function -> (callee <- reader origin) -> count", "functions": now})
 		return
